@@ -143,6 +143,11 @@ func (ms *Modules) resolveIdentities() []error {
 	// we can look them up based on the 'real' prefix of the module and the
 	// name of the identity.
 	for _, mod := range ms.Modules {
+		// Identities are keyed by module name.  When several revisions of a
+		// module are loaded, the name denotes the latest one.
+		if ms.Modules[mod.Name] != mod {
+			continue
+		}
 		for _, i := range mod.Identities() {
 			keyName, r := newResolvedIdentity(mod, i)
 			ms.typeDict.identities.dict[keyName] = *r
